@@ -161,10 +161,62 @@ def r1(db, rep):
                               % (short, diff[0][1][:300], A.canon()[:160], B.canon()[:160]))
             elif und:
                 rep.analysis_broken("%s %s: %s" % (K, part, und[0][1]))
+            elif less and part == "header" and not WT.is_zero() and K not in RAW_TRAILER:
+                rep.violation("R1-size-balance", key, site,
+                              "%s writes fewer header bytes than header_size() counts (%s) and then positions its trailer with the same cursor "
+                              "(skip of the inner layer): the trailer lands inside the payload" % (short, less[0][1][:240]))
             else:
                 note = "" if not less else "; in %d cell(s) fewer bytes are written than counted (zero gap, no overwrite)" % len(less)
                 rep.ok("R1-size-balance", key, site, "written `%s` <= counted `%s`%s" % (A.canon()[:120], B.canon()[:120], note))
     rep.extra["r1_classes"] = stats["classes"]
+    r1_nested(db, rep)
+
+
+def r1_nested(db, rep):
+    """value types that serialise themselves into a slice of the layer's buffer: what serialize() writes must equal
+    what size() announces - the layer skips size() bytes and counts them in header_size()/trailer_size()"""
+    import collections
+    recs = collections.defaultdict(dict)
+    for fid, f in db.functions.items():
+        rec = f.get("rec") or ""
+        if not rec.startswith("Tins::") or not f.get("body") or rec == "Tins::PDU" or "Tins::PDU" in db.all_bases(rec):
+            continue
+        nm = f["qual"].split("::")[-1]
+        if nm == "size" and len(f["params"]) == 0:
+            recs[rec]["size"] = f
+        if nm == "serialize" and len(f["params"]) == 2:
+            recs[rec]["ser"] = f
+    n = 0
+    for rec, d in sorted(recs.items()):
+        if "size" not in d or "ser" not in d:
+            continue
+        n += 1
+        key = "%s:serialize-vs-size" % rec.replace("Tins::", "")
+        fx = sx.Fx(db, None)
+        try:
+            S = fx.exec_fn(sx.Ctx(fx, d["size"], cls=None)).get("§ret")
+            cw = sx.Ctx(fx, d["ser"], cls=None)
+            env = fx.exec_list(cw, d["ser"]["body"].get("c", []), {"§ret": None})
+        except sx.Opaque as e:
+            rep.undecided("R1-size-balance", key, facts.loc(d["ser"]), "outside the E-STREAMFX language: %s" % e)
+            continue
+        W = env.get("s:out")
+        if W is None or S is None:
+            rep.undecided("R1-size-balance", key, facts.loc(d["ser"]), "no cursor / no size form")
+            continue
+        res = sx.compare(fx, W, S)
+        bad = [x for x in res if x[0] in ("more", "differ")]
+        und = [x for x in res if x[0] == "undecided"]
+        if bad:
+            rep.violation("R1-size-balance", key, facts.loc(d["ser"]),
+                          "%s::serialize writes `%s` but size() announces `%s` (%s): the enclosing layer reserves and skips size() bytes, "
+                          "so the record overruns into what follows" % (rec.split("::")[-1], W.canon()[:120], S.canon()[:120], bad[0][1][:160]))
+        elif und:
+            rep.undecided("R1-size-balance", key, facts.loc(d["ser"]), und[0][1])
+        else:
+            rep.ok("R1-size-balance", key, facts.loc(d["ser"]), "serialize writes `%s` <= size() `%s`" % (W.canon()[:100], S.canon()[:100]))
+    if n < 3:
+        rep.analysis_broken("only %d self-serialising value types found (3 expected)" % n)
 
 
 def subst_atom(form, a, b):
